@@ -57,12 +57,18 @@ def gen_src_engine():
 
 
 def gen_c03():
-    """C03: SrcEngine.lean (loop nests) + regenerate lean/RSVerif/Gen/SrcKernel.lean (per-chunk kernels of all families)"""
+    """C03: SrcEngine.lean (loop nests) + SrcKernel.lean (per-chunk kernels of all families) + SrcShards.lean (flat memory)"""
     rc, out = gen_src_engine()
     if rc != 0:
         return rc, out
     o = os.path.join(VERIF, "lean", "RSVerif", "Gen", "SrcKernel.lean")
     p = subprocess.run([sys.executable, os.path.join(VERIF, "translate", "rs2lean_kernel.py"), "/repo", o],
+                       stdout=subprocess.PIPE, stderr=subprocess.STDOUT, text=True)
+    if p.returncode != 0:
+        return p.returncode, out + p.stdout
+    out += p.stdout
+    o = os.path.join(VERIF, "lean", "RSVerif", "Gen", "SrcShards.lean")
+    p = subprocess.run([sys.executable, os.path.join(VERIF, "translate", "rs2lean_shards.py"), "/repo", o],
                        stdout=subprocess.PIPE, stderr=subprocess.STDOUT, text=True)
     return p.returncode, out + p.stdout
 
@@ -72,7 +78,10 @@ TECH_TRE = ("Lean 4 machine-checked proof; the transform loop nests of the Naive
             "current Rust source on every run (translate/rs2lean_engine.py -> Gen/SrcEngine.lean: shard-operation programs) and "
             "proved equal to the model transforms; the per-chunk kernels of Ssse3 / Avx2 / Neon / NoSimd and utils::xor are TRANSLATED too "
             "(translate/rs2lean_kernel.py -> Gen/SrcKernel.lean: intrinsic by intrinsic, with the documented semantics of the intrinsics) "
-            "and proved equal to each other and to the field butterflies; the rest on a hand-written model + differential correspondence")
+            "and proved equal to each other and to the field butterflies; the index arithmetic of the flat memory (src/engine/shards.rs: "
+            "dist2_mut / dist4_mut / flat2_mut / copy_within / zero / split_at_mut / Index) is TRANSLATED (translate/rs2lean_shards.py -> "
+            "Gen/SrcShards.lean: slices as views, panics as none) and proved equal to the flat-memory model; the rest on a hand-written "
+            "model + differential correspondence")
 
 
 def gen_src_default():
